@@ -179,7 +179,8 @@ let () =
                 let sns = fld rest "sns" in
                 let have = if sns = "-" then [] else List.map int_of_string (split ',' sns) in
                 let nxt = int_of_string (fld rest "nxt") in
-                List.iter (fun sn -> if sn >= nxt && sn < nxt + 32 && not (List.mem sn have) then
+                (* sn < 32: inside the receive window whenever it was fed (the window only moves up) *)
+                List.iter (fun sn -> if sn >= nxt && sn < 32 && not (List.mem sn have) then
                                        report (Printf.sprintf "segment-held(session %d)" id) sns (string_of_int sn))
                   (direct_sns conv e.e_sess.r_log)
             | _ -> report "session-live" (string_of_int id) "absent")
